@@ -93,6 +93,7 @@ func (e *Enum) setIsIota() {
 	// check all the values
 	values := make([]int64, len(e.Members))
 	seen := make(map[int64]bool)
+	nbExported := 0
 	var max int64 = -1
 	for i, member := range e.Members {
 		v, ok := member.int64()
@@ -103,12 +104,14 @@ func (e *Enum) setIsIota() {
 		if !member.Const.Exported() {
 			continue // ignore non exported const
 		}
+		nbExported++
 		seen[v] = true
 		if max < v {
 			max = v
 		}
 	}
-	if len(seen) != int(max+1) {
+	// the exported values must be exactly 0, 1, ..., max, without duplicates
+	if len(seen) != int(max+1) || nbExported != len(seen) {
 		return
 	}
 
